@@ -224,3 +224,11 @@ Definition tet_tiles_ok (W : list nref -> list (list Q)) (tpls : list (list nref
 (* a permutation of [0; 1; 2] *)
 Definition is_perm3 (l : list nat) : bool :=
   (length l =? 3) && forallb (fun i => existsb (Nat.eqb i) l) [0; 1; 2].
+
+(* ------------------------------------------------------------------ utils.adaptive_theta *)
+Definition qmax (l : list Q) : Q :=
+  match l with [] => 0%Q | x :: r => fold_left (fun a b => if Qltb a b then b else a) r x end.
+(* the cells whose estimate exceeds theta * max — an index LIST (one-dimensional whatever the number of hits) *)
+Definition theta_select (est : list Q) (theta : Q) (mx : option Q) : list nat :=
+  let m := match mx with Some v => v | None => qmax est end in
+  filter (fun k => Qltb (theta * m)%Q (nth k est 0%Q)) (seq 0 (length est)).
